@@ -1,7 +1,8 @@
 #!/bin/sh
-# Runs the repository suite and compares against /root/.vp/BASELINE.json (stable_pass ids must all pass).
+# usage: baseline.sh <worktree-dir>   -> exit 0 iff all 1403 baseline-passing tests still pass in that worktree
+W=$1
 OUT=$(mktemp /tmp/junit.XXXXXX.xml)
-cd /repo && /venv/bin/python -m pytest -q -p no:cacheprovider --timeout=900 --continue-on-collection-errors --junitxml=$OUT >/dev/null 2>&1
+cd $W && PYTHONPATH=$W/src /venv/bin/python -m pytest -q -p no:cacheprovider --timeout=900 --continue-on-collection-errors --junitxml=$OUT >/dev/null 2>&1
 /venv/bin/python - "$OUT" <<'PY'
 import json, sys, xml.etree.ElementTree as ET
 base = set(json.load(open('/root/.vp/BASELINE.json'))['stable_pass'])
